@@ -13,31 +13,41 @@ import typing as t
 from .. import astq
 from ..cfg import Node, cfg_of
 from ..fold import Folder, Unfoldable
-from ..loader import AnalysisError, AnchorMissing, ClassInfo, FuncInfo, dotted, norm, walk_no_nested
+from ..loader import AnalysisError, AnchorMissing, ClassInfo, FuncInfo, dotted, nested_funcs, norm, walk_no_nested
 from ..report import Ctx
-from ._c17_helpers import UNK, Ev, FuncEval, Lang, crosscheck, fold_regex_expr, self_call
+from ._c17_helpers import UNK, Ev, FuncEval, Lang, crosscheck, fold_regex_expr, self_call, sole_method
 
 LEVEL_TEXT = (
     "Static decision of structural clauses of C17 on /repo's current source. (R17.1) In http.parse_accept_header every "
-    "quality that reaches result.append((item, q)) is either a constant in [0,1] (1 when the q parameter is absent) or "
-    "float() of a text that a dominating pattern test accepted; the pattern's language (DFA built from the folded "
+    "quality that reaches result.append((item, q)) - followed back through plain copies and, one level, through a helper "
+    "of the same module that computes it - is either a constant in [0,1] (1 when the q parameter is absent) or "
+    "float() of a text that a dominating pattern test accepted (in the same function, in a one-line predicate helper, or "
+    "on the argument passed to the converting helper); the pattern's language (DFA built from the folded "
     "regex, cross-checked against the re engine) contains only plain ASCII decimal numerals, contains every RFC 9110 "
     "qvalue with a fraction, and for each of the value ranges q<0, q=0, 0<q<1, q=1, q>1 that the language inhabits the "
     "branch conditions between the conversion and the append (evaluated at one sample per range, exact for comparisons "
-    "of q with constants) drop the item exactly when it is outside [0,1]. (R17.2) In Accept.best_match the chosen "
+    "of q with constants; across the helper's return and the caller's test of it) drop the item exactly when it is "
+    "outside [0,1], by skipping it rather than raising; a text the helper rejects never reaches the append. (R17.2) In "
+    "Accept.best_match the chosen "
     "offer is replaced, on every path of the loop body, exactly when a client range matched, its quality is > 0 and "
     "(quality > best quality, or quality == best quality and specificity > best specificity): decided by evaluating the "
     "loop's branch conditions for all 18 order scenarios (q = 0 | q > 0) x (q vs best q) x (specificity vs best), plus the "
     "first-candidate scenarios with the initial state; the best-so-far state is updated together with the choice; "
-    "offers are visited in caller order; the default is returned otherwise; LanguageAccept.best_match stages its "
-    "fallbacks, each through Accept.best_match with the client's q kept, returns only the default or an offer that a stage "
-    "selected, and maps a negotiated primary tag back to an offer carrying exactly that tag (evaluated on sample offer "
-    "lists with 2- and 3-letter primary tags). (R17.3) Accept.__init__ stores the result of "
-    "one stable sorted() whose effective order is specificity (major), quality (minor), ties in client order; "
-    "_best_single_match / quality return the first range in list order whose _value_matches(offer, range) holds; "
+    "offers are visited in caller order; after the loop the default is returned while nothing was chosen and the choice "
+    "otherwise; LanguageAccept.best_match, run statement by statement on sample client lists and offer lists (2- and "
+    "3-letter primary tags, '-' and '_' separators, offers sharing a primary tag) with every negotiation it starts answered "
+    "by the scenario, negotiates in exactly the three documented stages (own ranges on the offers; an Accept of the ranges' "
+    "primary tags with the client's q kept, on the offers; own ranges on the offers' primary tags), returns a stage's offer "
+    "as soon as one is found, maps a negotiated primary tag back to the first offer carrying exactly that tag, and returns "
+    "the default otherwise. (R17.3) Accept.__init__ stores the result of "
+    "one stable sort (sorted() or list.sort() of a fresh list) whose effective order is specificity (major), quality (minor), ties in client order; "
+    "_best_single_match / quality return the first range in list order whose _value_matches(offer, range) holds "
+    "(return inside the scan, search loop with break, or next() over a generator); "
     "every _specificity ranks wildcards below concrete values; parse_accept_header only appends. (R17.4) every "
     "_value_matches accepts the wildcard range(s) of its family and compares both operands under the same normaliser "
-    "(scenario tables per family). NOT decided: optimality of the negotiated offer over all headers and offer lists as "
+    "(scenario tables per family, each scenario followed statement by statement through the method and the helpers it "
+    "calls; equality comparisons with locals expanded, also inside a helper that receives offer and range). NOT decided: "
+    "optimality of the negotiated offer over all headers and offer lists as "
     "a whole (it follows from these clauses together with list immutability, C08 R8.1, which is not re-checked here), "
     "the charset alias table of the codecs module, and media-range parameter semantics beyond the scenario table."
 )
@@ -50,6 +60,8 @@ TRUSTED = [
 ASSUMPTIONS = [
     "Accept lists are not reordered after construction (ImmutableList, property C08)",
     "scenario samples stand for order classes: branch conditions in the analysed loops are order comparisons between the scenario's quantities (anything else is treated as unknown and keeps both branches)",
+    "helpers are followed when they are functions of the same module called by their bare name, or methods that no class of the Accept hierarchy overrides; their statements are interpreted on the scenario's constants (str / list / dict / re operations on folded patterns), never imported or run",
+    "LanguageAccept.best_match is judged on sample lists: tags are split at the first '-' or '_' (the documented primary-tag fallback); the samples cover 2/3-letter tags, both separators and offers that share a primary tag",
     "offers passed by the application are concrete values (no wildcards)",
 ]
 
@@ -131,11 +143,15 @@ def run(ctx: Ctx) -> None:
     _r174(ctx, folder, accept, fam)
 
 
+_Q_PATTERNS: dict[int, list] = {}  # patterns R17.1 relied on in this run (kept out of ctx.extra: that goes into the evidence file)
+
+
 def run_thorough(ctx: Ctx) -> None:
     """deeper cross-check of the q-pattern automaton against the re engine (strings up to length 6)."""
-    folder = Folder(ctx.repo)
-    fi = ctx.repo.func("http.parse_accept_header")
-    for rx, name, mode, _subject, _at, _t in _all_regex_tests(ctx, folder, fi):
+    used = _Q_PATTERNS.get(id(ctx))
+    if not used:
+        raise AnalysisError("run_thorough: R17.1 recorded no q pattern to cross-check")
+    for rx, name, mode in used:
         lang = Lang.from_regex(rx, mode)
         bad = crosscheck(rx, mode, lang, "-+.015e ", 6)
         if bad is not None:
@@ -147,9 +163,24 @@ def run_thorough(ctx: Ctx) -> None:
 # R17.1
 
 
+def _module_helper(fi: FuncInfo, fe: FuncEval, node: Node | None, call: ast.AST | None) -> FuncInfo | None:
+    """the private function of fi's own module that ``call`` invokes by its bare name (one level of helper extraction)."""
+    if not (isinstance(call, ast.Call) and isinstance(call.func, ast.Name)) or call.keywords or any(isinstance(a, ast.Starred) for a in call.args):
+        return None
+    if node is not None and fe.rd.reaching(node, call.func.id):
+        return None  # a local binding shadows the module-level name
+    h = fi.module.functions.get(call.func.id)
+    if h is None or h is fi or len(h.params) != len(call.args) or isinstance(h.node, ast.AsyncFunctionDef):
+        return None
+    if any(isinstance(x, (ast.Yield, ast.YieldFrom)) for x in ast.walk(h.node)):
+        return None
+    return h
+
+
 def _regex_test(ctx: Ctx, folder: Folder, fi: FuncInfo, fe: FuncEval, tnode: Node, label: str | None):
     """(regex, name, mode, subject expr, node of the call, label of the edge on which it matched) when the test atom
-    is the outcome of <pattern>.fullmatch/match/search(subject); label None = any."""
+    is the outcome of <pattern>.fullmatch/match/search(subject); label None = any.  A predicate helper of the same module
+    whose body is `return <pattern test on its parameter>` is looked through."""
     atom = tnode.ast
     want = "T"
     x: ast.AST | None = atom
@@ -171,9 +202,25 @@ def _regex_test(ctx: Ctx, folder: Folder, fi: FuncInfo, fe: FuncEval, tnode: Nod
         if len(defs) != 1:
             return None
         d = next(iter(defs))
-        if d.kind not in ("assign", "walrus") or d.node is None:
+        if d.kind not in ("assign", "walrus") or d.index is not None or d.node is None:
             return None
         x, at = d.value, d.node
+    if isinstance(x, ast.Call) and astq.is_name(x.func, "bool") and len(x.args) == 1 and not x.keywords:
+        x = x.args[0]
+    h = _module_helper(fi, fe, at, x)
+    if h is not None and len(h.params) == 1 and isinstance(x, ast.Call):
+        body = [s for s in h.node.body if not (isinstance(s, ast.Expr) and isinstance(s.value, ast.Constant))]  # type: ignore[attr-defined]
+        if len(body) == 1 and isinstance(body[0], ast.Return) and body[0].value is not None:
+            e = body[0].value
+            if isinstance(e, ast.Call) and astq.is_name(e.func, "bool") and len(e.args) == 1 and not e.keywords:
+                e = e.args[0]
+            if isinstance(e, ast.Compare) and len(e.ops) == 1 and astq.is_none(e.comparators[0]) and isinstance(e.ops[0], (ast.IsNot, ast.NotEq)):
+                e = e.left
+            if isinstance(e, ast.Call) and isinstance(e.func, ast.Attribute) and e.func.attr in ("fullmatch", "match", "search") and len(e.args) == 1 and not e.keywords and astq.is_name(e.args[0], h.params[0]):
+                r = fold_regex_expr(ctx.repo, folder, h, e.func.value)
+                if r is not None:
+                    return r[0], r[1], e.func.attr, x.args[0], at, want
+        return None
     if not (isinstance(x, ast.Call) and isinstance(x.func, ast.Attribute) and x.func.attr in ("fullmatch", "match", "search")):
         return None
     if len(x.args) != 1 or x.keywords:
@@ -184,15 +231,55 @@ def _regex_test(ctx: Ctx, folder: Folder, fi: FuncInfo, fe: FuncEval, tnode: Nod
     return r[0], r[1], x.func.attr, x.args[0], at, want
 
 
-def _all_regex_tests(ctx: Ctx, folder: Folder, fi: FuncInfo):
-    fe = FuncEval(ctx.repo, folder, fi)
-    out = []
-    for tn in fe.cfg.tests():
-        if tn.kind != "test":
-            continue
-        r = _regex_test(ctx, folder, fi, fe, tn, None)
-        if r is not None:
-            out.append(r)
+_RAISE = _Sent("raises")
+
+
+class _RetSrc:
+    """`return float(<text>)` in a quality helper, seen as a conversion whose result is handed straight back."""
+
+    kind = "return"
+    index = None
+    name = ""
+
+    def __init__(self, node: Node, stmt: ast.Return):
+        self.node = node
+        self.stmt = stmt
+        self.value = stmt.value
+
+
+def _is_float_call(repo: t.Any, fi: FuncInfo, v: ast.AST | None) -> bool:
+    return (isinstance(v, ast.Call) and isinstance(v.func, ast.Name) and v.func.id == "float" and len(v.args) == 1 and not v.keywords
+            and repo.resolve(fi.module, "float") == "builtins.float")
+
+
+def _plain(d: t.Any) -> bool:
+    return d.kind in ("assign", "walrus") and d.index is None and d.node is not None
+
+
+def _alias_names(fe: FuncEval, name: str) -> set[str]:
+    """``name`` and the locals that are plain copies of it."""
+    names = {name}
+    grew = True
+    while grew:
+        grew = False
+        for ds in fe.rd.gen.values():
+            for d in ds:
+                if _plain(d) and isinstance(d.value, ast.Name) and d.value.id in names and d.name not in names:
+                    names.add(d.name)
+                    grew = True
+    return names
+
+
+def _cmp_consts(fn: ast.AST, names: set[str]) -> set[float]:
+    out: set[float] = set()
+    for n in walk_no_nested(fn):
+        if isinstance(n, ast.Compare):
+            ops = [n.left, *n.comparators]
+            if any(isinstance(o, ast.Name) and o.id in names for o in ops):
+                for o in ops:
+                    c = _num_const(o)
+                    if c is not None:
+                        out.add(float(c))
     return out
 
 
@@ -239,71 +326,115 @@ def _r171(ctx: Ctx, folder: Folder) -> None:
     ctx.ob("R17.3", "parse_accept_header keeps the client's order: the result list only grows by append", not other,
            f"{len(appends)} append site(s); other mutations of the list: {[norm(o) for o in other]}", fi, other[0] if other else appends[0], "result list append-only")
 
-    sources = []  # (append call, Def)
-    qnames: set[str] = set()
+    # ---- where the appended quality comes from: reaching definitions, plain copies followed back to their origin ----
+    origins: list[tuple[t.Any, list]] = []  # (origin Def in parse_accept_header, chain of Defs from the appended name back to it)
     for a, an in zip(appends, a_nodes):
         qe = a.args[0].elts[1]  # type: ignore[attr-defined]
         if not isinstance(qe, ast.Name):
             raise AnalysisError(f"parse_accept_header: appended quality `{norm(qe)}` is not a local name (quality slot)")
-        qnames.add(qe.id)
         defs = rd.reaching(an, qe.id)  # type: ignore[arg-type]
         if not defs:
             raise AnalysisError(f"parse_accept_header: no definition of `{qe.id}` reaches the append")
         for d in sorted(defs, key=lambda d: getattr(d.stmt, "lineno", 0)):
-            if not any(d is d2 for _, d2 in sources):
-                sources.append((a, d))
-    ctx.floor("R17.1", "definitions of the quality reaching the append", len(sources), 2)
-    all_q_defs = [d for ds in rd.gen.values() for d in ds if d.name in qnames]
+            chain = [d]
+            while _plain(d) and isinstance(d.value, ast.Name) and len(chain) < 6:
+                ds = rd.reaching(d.node, d.value.id)
+                if len(ds) != 1 or not _plain(next(iter(ds))):
+                    break
+                d = next(iter(ds))
+                chain.append(d)
+            known = next((o for o in origins if o[0] is d), None)
+            if known is None:
+                origins.append((d, chain))
+            else:
+                known[1].extend(x for x in chain if not any(x is y for y in known[1]))
+    carried = {x.name for _, ch in origins for x in ch}  # names that carry a quality towards the append
+    all_q_defs = [d for ds in rd.gen.values() for d in ds if d.name in carried]
 
-    # constants q is compared with -> sample points (one per order class)
-    consts = {0.0, 1.0}
-    for n in walk_no_nested(fi.node):
-        if isinstance(n, ast.Compare):
-            ops = [n.left, *n.comparators]
-            if any(isinstance(o, ast.Name) and o.id in qnames for o in ops):
-                for o in ops:
-                    c = _num_const(o)
-                    if c is not None:
-                        consts.add(float(c))
-    pts = sorted(consts)
-    samples = [pts[0] - 1.0]
-    for i, p in enumerate(pts):
-        samples.append(p)
-        samples.append((p + pts[i + 1]) / 2 if i + 1 < len(pts) else p + 1.0)
+    raised: list[bool] = [False]  # side result of kept()/outcome(): the scenario forces an exception (instead of skipping the item)
 
-    def kept(d, value: float) -> tuple[bool, bool, list[Node]]:
-        """(may reach the append, is forced to end the iteration without it, undecided tests that mention the quality)."""
+    def kept(chain: list, value: t.Any) -> tuple[bool, bool, list[Node]]:
+        """(may reach the append, is forced to end the iteration without it, undecided tests that mention the quality)
+        when the origin of ``chain`` (and so every copy of it) holds ``value``."""
         fe = FuncEval(repo, folder, fi)
-        fe.pinned[d] = value
-        avoid = {o.node.id for o in all_q_defs if o is not d and o.node is not None}
-        seen = fe.explore([d.node], stop=a_ids | ends, avoid=avoid)
+        for x in chain:
+            fe.pinned[x] = value
+        d0 = chain[-1]
+        names = {x.name for x in chain}
+        avoid = {o.node.id for o in all_q_defs if not any(o is x for x in chain) and o.node is not None}
+        seen = fe.explore([d0.node], stop=a_ids | ends, avoid=avoid)
         may_reach = bool(seen & a_ids)
         # a drop is reported only when the scenario forces it (every test on the way is decided by the value of q):
         # an undecided test on the way (e.g. the validity of the q text, on the way from a default) is someone else's reason
-        seen2 = fe.explore([d.node], stop=ends, avoid=avoid | a_ids, definite=True)
+        seen2 = fe.explore([d0.node], stop=ends, avoid=avoid | a_ids, definite=True)
         must_skip = bool(seen2 & ends)
-        blocking = [tn for tn in fe.unknown_tests if astq.names_in(tn.ast) & qnames]  # type: ignore[arg-type]
+        raised[0] = cfg.raise_exit.id in seen2
+        blocking = [tn for tn in fe.unknown_tests if astq.names_in(tn.ast) & names]  # type: ignore[arg-type]
         return may_reach, must_skip, blocking
 
-    def judge(d, value: float, label: str, inhabited: bool, witness: str | None, src: str) -> None:
+    def through_helper(H: FuncInfo, dH: t.Any, value: float, definite: bool) -> tuple[list[t.Any], list[Node]]:
+        """what helper H hands back once its conversion dH produced ``value``: returned values (_RAISE for a raise)."""
+        if isinstance(dH, _RetSrc):
+            return [value], []
+        feH = FuncEval(repo, folder, H)
+        feH.pinned[dH] = value
+        avoid = {o.node.id for ds in feH.rd.gen.values() for o in ds if o.name == dH.name and o is not dH and o.node is not None}
+        seen = feH.explore([dH.node], avoid=avoid, definite=definite)
+        vals: list[t.Any] = []
+        for n in feH.cfg.nodes:
+            if n.id in seen and n.kind == "stmt" and isinstance(n.ast, ast.Return):
+                vals.append(feH.ev_at(n).val(n.ast.value) if n.ast.value is not None else None)
+        if any((p.id, feH.cfg.exit.id) in feH.edges and not isinstance(p.ast, ast.Return) for p, _ in feH.cfg.exit.preds):
+            vals.append(None)
+        if feH.cfg.raise_exit.id in seen:
+            vals.append(_RAISE)
+        names = _alias_names(feH, dH.name)
+        return vals, [tn for tn in feH.unknown_tests if astq.names_in(tn.ast) & names]  # type: ignore[arg-type]
+
+    def outcome(chain: list, value: float, via: tuple[FuncInfo, t.Any] | None) -> tuple[bool, bool, list[Node]]:
+        if via is None:
+            return kept(chain, value)
+        H, dH = via
+        may_vals, blk = through_helper(H, dH, value, False)
+        if blk:
+            return False, False, blk
+        if any(v is UNK for v in may_vals):
+            raise AnalysisError(f"parse_accept_header: cannot evaluate what {H.qualname} returns for q={value:g}")
+        def_vals, _ = through_helper(H, dH, value, True)
+        may_reach = must_skip = any_raise = False
+        blocking: list[Node] = []
+        seen_vals: list[t.Any] = []
+        for v in may_vals:
+            if v is _RAISE or any(v is s or (type(v) is type(s) and v == s) for s in seen_vals):
+                continue
+            seen_vals.append(v)
+            mr, ms, bl = kept(chain, v)
+            may_reach = may_reach or mr
+            blocking += bl
+            if any(v is s or (type(v) is type(s) and v == s) for s in def_vals):
+                must_skip = must_skip or ms
+                any_raise = any_raise or raised[0]
+        if any(v is _RAISE for v in def_vals):
+            must_skip = any_raise = True
+        raised[0] = any_raise
+        return may_reach, must_skip, blocking
+
+    def judge(chain: list, value: float, label: str, inhabited: bool, witness: str | None, src: str, sk: str, via: tuple[FuncInfo, t.Any] | None = None) -> None:
         keep = 0 <= value <= 1
+        at = chain[-1].stmt
         if not inhabited:
-            ctx.ob("R17.1", f"{src}: {label}", True, "no text accepted by the pattern has a value in this range", fi, d.stmt, f"q {skey(d)} range {label}")
+            ctx.ob("R17.1", f"{src}: {label}", True, "no text accepted by the pattern has a value in this range", fi, at, f"q {sk} range {label}")
             return
-        may_reach, may_skip, blocking = kept(d, value)
-        ok = (may_reach and not may_skip) if keep else (not may_reach)
+        may_reach, may_skip, blocking = outcome(chain, value, via)
+        ok = (may_reach and not may_skip) if keep else (not may_reach and not raised[0])
         if blocking:
             raise AnalysisError(f"parse_accept_header: cannot evaluate `{norm(blocking[0].ast)}` for q={value}")  # type: ignore[arg-type]
         eg = f"the pattern lets e.g. q={witness} through; " if witness is not None else ""
         if keep:
             fact = f"{eg}evaluated at q={value:g}: item {'is always appended' if ok else 'can be dropped' if may_reach else 'is never appended'}"
         else:
-            fact = f"{eg}evaluated at q={value:g}: item {'is never appended' if ok else 'reaches result.append'}"
-        ctx.ob("R17.1", f"{src}: {label} -> {'kept' if keep else 'ignored'}", ok, fact, fi, d.stmt, f"q {skey(d)} range {label}")
-
-    def skey(d) -> str:
-        c_ = _num_const(d.value)
-        return f"constant {c_:g}" if c_ is not None else "float"
+            fact = f"{eg}evaluated at q={value:g}: item {'is never appended' if ok else 'reaches result.append' if may_reach else 'is not skipped: an exception is raised, the whole header is lost'}"
+        ctx.ob("R17.1", f"{src}: {label} -> {'kept' if keep else 'ignored'}", ok, fact, fi, at, f"q {sk} range {label}")
 
     def label_of(v: float) -> str:
         return "q < 0" if v < 0 else "q = 0" if v == 0 else "0 < q < 1" if v < 1 else "q = 1" if v == 1 else "q > 1"
@@ -317,44 +448,53 @@ def _r171(ctx: Ctx, folder: Folder) -> None:
         mid = mid - rg
     regions["0 < q < 1"] = mid
     RFCQ = Lang.from_pattern(RFCQ_PAT)
+    count = {"float": 0, "const": 0, "samples": 0, "guarded": 0}
 
-    n_float = n_const = n_samples = n_guarded = 0
-    for a, d in sources:
-        v = d.value if d.kind == "assign" else None
-        c = _num_const(v)
-        if c is not None:
-            # ---- constant quality (the "no q parameter" default) ----
-            n_const += 1
-            src = f"constant {c:g}"
-            judge(d, float(c), label_of(float(c)), True, None, src)
-            # a constant cannot come from the header text: it is the quality of an item that carries no q parameter
-            how = [f"`{norm(tn.ast)}` is {'true' if lb == 'T' else 'false'}" for tn, lb in cfg.guards(d.node) if tn.kind == "test" and tn.ast is not None]
-            ctx.ob("R17.1", "an item without a q parameter has quality 1", c == 1, f"`{norm(d.stmt)}` (reached when {' and '.join(how) or 'always'})", fi, d.stmt, "default quality")
-            continue
-        if not (isinstance(v, ast.Call) and isinstance(v.func, ast.Name) and v.func.id == "float" and len(v.args) == 1 and not v.keywords and repo.resolve(fi.module, "float") == "builtins.float"):
-            raise AnalysisError(f"parse_accept_header: cannot interpret the quality definition `{norm(d.stmt) if d.stmt is not None else d.kind}` (expected a constant or float(<text>))")
-        # ---- float(<text>) guarded by a pattern test ----
-        n_float += 1
+    def constant_source(chain: list, c: float | int, shown: str, how_nodes: list[tuple[Node, str]]) -> None:
+        count["const"] += 1
+        judge(chain, float(c), label_of(float(c)), True, None, f"constant {c:g}", f"constant {c:g}")
+        # a constant cannot come from the header text: it is the quality of an item that carries no q parameter
+        how = [f"`{norm(tn.ast)}` is {'true' if lb == 'T' else 'false'}" for tn, lb in how_nodes if tn.kind == "test" and tn.ast is not None]
+        ctx.ob("R17.1", "an item without a q parameter has quality 1", c == 1, f"`{shown}` (reached when {' and '.join(how) or 'always'})", fi, chain[-1].stmt, "default quality")
+
+    def float_source(F: FuncInfo, feF: FuncEval, dF: t.Any, chain: list, via: tuple[FuncInfo, t.Any] | None) -> None:
+        """dF: `x = float(<text>)` in F (parse_accept_header itself, or the helper that computes the quality)."""
+        count["float"] += 1
+        v = dF.value
         arg = v.args[0]
         src = f"float({norm(arg)})"
         found = None
-        for tn, lb in cfg.guards(d.node):
+        for tn, lb in feF.cfg.guards(dF.node):
             if tn.kind != "test":
                 continue
-            r = _regex_test(ctx, folder, fi, base, tn, lb)
+            r = _regex_test(ctx, folder, F, feF, tn, lb)
             if r is None:
                 continue
             rx, name, mode, subject, at, _want = r
-            same = norm(subject) == norm(arg) and all(rd.reaching(at, nm) == rd.reaching(d.node, nm) for nm in astq.names_in(subject))
+            same = norm(subject) == norm(arg) and all(feF.rd.reaching(at, nm) == feF.rd.reaching(dF.node, nm) for nm in astq.names_in(subject))
             if same:
                 found = (rx, name, mode, tn)
+        if found is None and F is not fi and isinstance(arg, ast.Name) and arg.id in F.params and {d.kind for d in feF.rd.reaching(dF.node, arg.id)} == {"param"}:
+            # the text is the helper's parameter, untouched: the test may sit in parse_accept_header, on the argument it passes
+            d0 = chain[-1]
+            passed = d0.value.args[F.params.index(arg.id)]
+            for tn, lb in cfg.guards(d0.node):
+                if tn.kind != "test":
+                    continue
+                r = _regex_test(ctx, folder, fi, base, tn, lb)
+                if r is None:
+                    continue
+                rx, name, mode, subject, at, _want = r
+                if norm(subject) == norm(passed) and all(rd.reaching(at, nm) == rd.reaching(d0.node, nm) for nm in astq.names_in(subject)):
+                    found = (rx, name, mode, tn)
         if found is None:
             ctx.ob("R17.1", f"{src} is dominated by a successful pattern test on the same text", False,
-                   "no `<pattern>.fullmatch(text)` outcome dominates the conversion: a malformed q reaches float() (ValueError, or 'nan'/'1e0' accepted)", fi, d.stmt, "q float guarded")
-            continue
+                   "no `<pattern>.fullmatch(text)` outcome dominates the conversion: a malformed q reaches float() (ValueError, or 'nan'/'1e0' accepted)", fi, dF.stmt, "q float guarded")
+            return
         rx, name, mode, tn = found
-        n_guarded += 1
-        ctx.ob("R17.1", f"{src} is dominated by a successful pattern test on the same text", True, f"`{norm(tn.ast)}` ({name} = {rx.pattern!r}, flags {rx.flags}) dominates the conversion", fi, d.stmt, "q float guarded")
+        count["guarded"] += 1
+        _Q_PATTERNS.setdefault(id(ctx), []).append((rx, name, mode))
+        ctx.ob("R17.1", f"{src} is dominated by a successful pattern test on the same text", True, f"`{norm(tn.ast)}` ({name} = {rx.pattern!r}, flags {rx.flags}) dominates the conversion" + (f" in {F.qualname}" if F is not fi else ""), fi, dF.stmt, "q float guarded")
         try:
             L = Lang.from_regex(rx, mode)
         except Unfoldable as e:
@@ -369,17 +509,65 @@ def _r171(ctx: Ctx, folder: Folder) -> None:
         w2 = (RFCQ - L).witness()
         ctx.ob("R17.1", f"every RFC 9110 qvalue is accepted by {name}.{mode}", w2 is None,
                f"{name} = {rx.pattern!r}: " + ("contains 0(.D{1,3})? and 1(.0{1,3})?" if w2 is None else f"rejects the valid q value {w2!r}: the item would be ignored"), fi, tn.ast, "q pattern accepts rfc qvalues")
+        # constants the quality is compared with -> sample points (one per order class)
+        consts = {0.0, 1.0} | _cmp_consts(fi.node, {x.name for x in chain} | carried)
+        if F is not fi:
+            consts |= _cmp_consts(F.node, _alias_names(feF, dF.name)) if dF.name else set()
+        pts = sorted(consts)
+        samples = [pts[0] - 1.0]
+        for i, p in enumerate(pts):
+            samples.append(p)
+            samples.append((p + pts[i + 1]) / 2 if i + 1 < len(pts) else p + 1.0)
         per_label: dict[str, int] = {}
         for sv in samples:
             per_label[label_of(sv)] = per_label.get(label_of(sv), 0) + 1
         for sv in samples:
             lab = label_of(sv)
             wit = (L & REF & regions[lab]).witness()
-            n_samples += 1
-            judge(d, sv, lab if per_label[lab] == 1 else f"{lab} (sample {sv:g})", wit is not None, wit, src)
-    ctx.floor("R17.1", "float() conversions of a q text", n_float, 1)
-    ctx.floor("R17.1", "constant qualities", n_const, 1)
-    ctx.floor("R17.1", "value-range samples (5 per guarded conversion)", n_samples, 5 * n_guarded)
+            count["samples"] += 1
+            judge(chain, sv, lab if per_label[lab] == 1 else f"{lab} (sample {sv:g})", wit is not None, wit, src, "float", via)
+
+    for d0, chain in origins:
+        v = d0.value if _plain(d0) else None
+        c = _num_const(v)
+        if c is not None:
+            constant_source(chain, c, norm(d0.stmt), cfg.guards(d0.node))
+            continue
+        if _is_float_call(repo, fi, v):
+            float_source(fi, base, d0, chain, None)
+            continue
+        H = _module_helper(fi, base, d0.node, v)
+        if H is None:
+            raise AnalysisError(f"parse_accept_header: cannot interpret the quality definition `{norm(d0.stmt) if d0.stmt is not None else d0.kind}` (expected a constant, float(<text>) or a helper of this module that computes it)")
+        # ---- the quality is computed by a helper: its conversions, and what it returns without converting ----
+        ctx.saw(H)
+        feH = FuncEval(repo, folder, H)
+        conv = [d for ds in feH.rd.gen.values() for d in ds if _plain(d) and _is_float_call(repo, H, d.value)]
+        conv += [_RetSrc(feH.cfg.node_of(r), r) for r in astq.returns_of(H.node) if _is_float_call(repo, H, r.value)]  # type: ignore[arg-type]
+        if not conv:
+            raise AnalysisError(f"parse_accept_header: quality helper {H.qualname} has no float(<text>) conversion (conversion slot)")
+        for dH in sorted(conv, key=lambda d: getattr(d.stmt, "lineno", 0)):
+            float_source(H, feH, dH, chain, (H, dH))
+        early = FuncEval(repo, folder, H)
+        seen = early.explore([early.cfg.entry], avoid={d.node.id for d in conv})
+        for n in early.cfg.nodes:
+            if not (n.id in seen and n.kind == "stmt" and isinstance(n.ast, ast.Return)):
+                continue
+            rv = early.ev_at(n).val(n.ast.value) if n.ast.value is not None else None
+            if rv is None:
+                may_reach, _ms, blocking = kept(chain, None)
+                if blocking:
+                    raise AnalysisError(f"parse_accept_header: cannot evaluate `{norm(blocking[0].ast)}` when {H.qualname} returns None")  # type: ignore[arg-type]
+                ctx.ob("R17.1", f"a q text that {H.qualname} rejects (returns None) is ignored", not may_reach,
+                       f"`{norm(n.ast)}` in {H.qualname}: with that result the item {'reaches result.append' if may_reach else 'is never appended'}", fi, d0.stmt, "q helper rejection ignored")
+            elif isinstance(rv, (int, float)) and not isinstance(rv, bool):
+                constant_source(chain, rv, f"{norm(n.ast)} in {H.qualname}", early.cfg.guards(n))
+            else:
+                raise AnalysisError(f"parse_accept_header: cannot interpret `{norm(n.ast)}` of quality helper {H.qualname}")
+    ctx.floor("R17.1", "origins of the quality reaching the append", len(origins), 1)
+    ctx.floor("R17.1", "float() conversions of a q text", count["float"], 1)
+    ctx.floor("R17.1", "constant qualities", count["const"], 1)
+    ctx.floor("R17.1", "value-range samples (5 per guarded conversion)", count["samples"], 5 * count["guarded"])
 
 
 # =====================================================================
@@ -420,31 +608,73 @@ def _r172(ctx: Ctx, folder: Folder, accept: ClassInfo, fam: list[ClassInfo]) -> 
             if nm == "best_match" and w.fq not in analysed or nm != "best_match" and w.cls is not accept:
                 raise AnalysisError(f"{c.name}.{nm} resolves to {w.fq}, which these rules do not analyse")
 
-    rets = astq.returns_of(bm.node)
-    rnames = {r.value.id for r in rets if isinstance(r.value, ast.Name)}
-    if not rets or len(rnames) != 1 or any(not isinstance(r.value, ast.Name) for r in rets):
-        raise AnalysisError("Accept.best_match: expected `return <name>` (result slot)")
-    R = rnames.pop()
-    loops = [n for n in walk_no_nested(bm.node) if isinstance(n, ast.For) and any(isinstance(s, ast.Assign) and any(astq.is_name(tg, R) for tg in s.targets) for s in ast.walk(n))]
-    if len(loops) != 1 or not isinstance(loops[0].target, ast.Name):
-        raise AnalysisError("Accept.best_match: expected one `for <offer> in <offers>` loop assigning the result (loop slot)")
-    loop = loops[0]
-    offer_var = loop.target.id
+    # ---- slots: the offer loop, the name that holds the choice, the statements that replace it --------------
+    def def_expr(d: t.Any) -> ast.AST | None:
+        """expression a definition binds to its name (the matching element of `a, b = x, y`)."""
+        if d.kind in ("assign", "walrus") and d.index is None:
+            return d.value
+        return FuncEval._literal_elt(d) if d.kind == "unpack" else None
+
+    def loop_offer(lp: ast.For) -> tuple[str, ast.AST, bool] | None:
+        """(name of the offer being examined, iterated expression, wrapped in enumerate)."""
+        if isinstance(lp.target, ast.Name):
+            return lp.target.id, lp.iter, False
+        it = lp.iter
+        if (isinstance(lp.target, ast.Tuple) and len(lp.target.elts) == 2 and all(isinstance(x, ast.Name) for x in lp.target.elts)
+                and isinstance(it, ast.Call) and astq.is_name(it.func, "enumerate") and 1 <= len(it.args) <= 2 and not it.keywords):
+            return lp.target.elts[1].id, it.args[0], True  # type: ignore[attr-defined]
+        return None
+
+    all_defs = [d for ds in rd.gen.values() for d in ds]
+    cands = []
+    for lp in [n for n in walk_no_nested(bm.node) if isinstance(n, ast.For)]:
+        lo = loop_offer(lp)
+        if lo is None:
+            continue
+        names = {d.name for d in all_defs if _inside(d.stmt, lp) and astq.is_name(def_expr(d), lo[0]) and d.name != lo[0]}
+        for nm in names:
+            cands.append((lp, lo, nm))
+    if len(cands) != 1:
+        raise AnalysisError(f"Accept.best_match: expected one `for <offer> in <offers>` loop that stores the examined offer in one result name, found {len(cands)} (loop slot)")
+    loop, (offer_var, iter_expr, enumerated), R = cands[0]
     head = cfg.node_of(loop)
     assert head is not None
-    A_stmts = [s for s in ast.walk(loop) if isinstance(s, ast.Assign) and any(astq.is_name(tg, R) for tg in s.targets)]
-    for s in A_stmts:
-        if not astq.is_name(s.value, offer_var):
-            raise AnalysisError(f"Accept.best_match: `{norm(s)}` does not store the offer being examined (choice slot)")
-    A_nodes = [cfg.node_of(s) for s in A_stmts]
+    A_defs = [d for d in all_defs if d.name == R and _inside(d.stmt, loop)]
+    for d in A_defs:
+        if not astq.is_name(def_expr(d), offer_var) or d.node is None:
+            raise AnalysisError(f"Accept.best_match: `{norm(d.stmt) if d.stmt is not None else d.name}` does not store the offer being examined (choice slot)")
+    A_stmts = [d.stmt for d in A_defs]
+    A_nodes = [d.node for d in A_defs]
     a_ids = {n.id for n in A_nodes if n is not None}
     ends = {head.id, cfg.exit.id, cfg.raise_exit.id}
     starts = [s for s, l in head.succs if l == "T"]
 
-    ctx.ob("R17.2", "offers are examined in the caller's order", _in_order(loop.iter, offers_p), f"loop iterates `{norm(loop.iter)}` (parameter `{offers_p}`)", bm, loop, "offer loop order")
-    outer_defs = [d for ds in rd.gen.values() for d in ds if d.name == R and not _inside(d.stmt, loop)]
-    ok_def = bool(outer_defs) and all(d.kind == "assign" and astq.is_name(d.value, default_p) for d in outer_defs)
-    ctx.ob("R17.2", "without an eligible offer the default is returned", ok_def, f"definitions of `{R}` outside the loop: {[norm(d.stmt) for d in outer_defs if d.stmt is not None]}", bm, outer_defs[0].stmt if outer_defs else bm.node, "result initialised to default")
+    ctx.ob("R17.2", "offers are examined in the caller's order", _in_order(iter_expr, offers_p), f"loop iterates `{norm(loop.iter)}` (parameter `{offers_p}`)", bm, loop, "offer loop order")
+
+    # what the function returns once the loop is over: the default while nothing was chosen, the choice otherwise
+    outer_defs = [d for d in all_defs if d.name == R and not _inside(d.stmt, loop)]
+    DEFAULT, CHOSEN = _Sent("default"), _Sent("chosen offer")
+
+    def after_loop(chosen: bool) -> tuple[list[t.Any], bool]:
+        def multi(name: str, defs, fe: FuncEval):
+            if name != R:
+                return NotImplemented
+            if chosen:
+                return CHOSEN
+            vals = [fe.def_value(d) for d in defs if not _inside(d.stmt, loop)]
+            return vals[0] if vals and all(v is vals[0] or (v is not UNK and v == vals[0]) for v in vals) else UNK
+
+        fe = FuncEval(repo, folder, bm, params={default_p: DEFAULT}, multi=multi)
+        fe.pinned.update({d: CHOSEN for d in A_defs} if chosen else {})
+        rv, raises = fe.outcomes([s for s, l in head.succs if l == "F"])
+        return [v for _, v in rv], raises
+
+    vals, raises = after_loop(False)
+    ok_def = bool(vals) and not raises and all(v is DEFAULT for v in vals)
+    ctx.ob("R17.2", "without an eligible offer the default is returned", ok_def, f"definitions of `{R}` outside the loop: {[norm(d.stmt) for d in outer_defs if d.stmt is not None]}; after a loop that chose nothing the function returns {vals}{' or raises' if raises else ''}", bm, outer_defs[0].stmt if outer_defs else bm.node, "result initialised to default")
+    vals, raises = after_loop(True)
+    ok_ret = bool(vals) and not raises and all(v is CHOSEN for v in vals)
+    ctx.ob("R17.2", "the offer the loop chose is what is returned", ok_ret, f"after a loop that stored an offer in `{R}` the function returns {vals}{' or raises' if raises else ''}", bm, A_stmts[0], "chosen offer returned")
 
     OFFER = _Sent("offer")
     CLIENT = {"cur": _Sent("range"), "best": _Sent("earlier range")}
@@ -487,7 +717,7 @@ def _r172(ctx: Ctx, folder: Folder, accept: ClassInfo, fam: list[ClassInfo]) -> 
                 return UNK
             return vals[0]
 
-        return FuncEval(repo, folder, bm, loop_values={id(loop): OFFER}, call_hook=hook, multi=multi)
+        return FuncEval(repo, folder, bm, loop_values={id(loop): (0, OFFER) if enumerated else OFFER}, call_hook=hook, multi=multi)
 
     def run_scen(scen: _Scen) -> tuple[bool, bool, list[Node]]:
         fe = make(scen)
@@ -582,150 +812,143 @@ def _r172(ctx: Ctx, folder: Folder, accept: ClassInfo, fam: list[ClassInfo]) -> 
         _language_fallbacks(ctx, folder, accept, fam, la, bm)
 
 
+class _AcceptObj:
+    """an Accept-family object built inside the analysed function (class, list handed to the constructor)."""
+
+    def __init__(self, klass: ClassInfo, items: t.Any):
+        self.klass = klass
+        self.items = items
+
+    def __repr__(self) -> str:
+        return f"<{self.klass.name}({self.items})>"
+
+
+_LANG_SELF = [("en-US", 0.3), ("de", 0.7), ("fr_CA", 0.5), ("zh-Hant-TW", 0.9), ("*", 0.1)]
+_LANG_OFFERS = (["enm-GB", "en-US", "de"], ["en-US", "enm-GB", "de"], ["de-AT", "deu", "en"], ["en-US", "en_GB", "fr"])
+
+
+def _primary(tag: str) -> str:
+    """RFC 4647 / documented fallback: the primary subtag is the text before the first '-' or '_'."""
+    import re as _re
+
+    return _re.split(r"[_-]", tag, maxsplit=1)[0]
+
+
 def _language_fallbacks(ctx: Ctx, folder: Folder, accept: ClassInfo, fam: list[ClassInfo], la: ClassInfo, bm: FuncInfo) -> None:
+    """LanguageAccept.best_match against its documented protocol.  The function is run statement by statement on sample
+    client lists / offer lists; every negotiation it starts (a ``best_match`` call on ``super()`` or on an Accept object
+    it built) is answered by the scenario and recorded with its receiver and candidate list - so the decision does not
+    depend on how the stages are spelled (early returns or nesting, generator / loop / mapping for the way back)."""
     repo = ctx.repo
     fi = la.methods["best_match"]
     ctx.saw(fi)
-    fe = FuncEval(repo, folder, fi)
-    cfg, rd = fe.cfg, fe.rd
     params = fi.params
     if len(params) < 3:
         raise AnalysisError("LanguageAccept.best_match: expected (self, offers, default)")
     offers_p, default_p = params[1], params[2]
-    calls = sorted(astq.method_calls(fi.node, "best_match", nested=False), key=lambda c: (c.lineno, c.col_offset))
-    ctx.floor("R17.2", "negotiation stages of LanguageAccept.best_match", len(calls), 3)
-    stage_defs = []  # (call, assignment Def)
-    for c in calls:
-        recv = c.func.value  # type: ignore[attr-defined]
-        d = next((x for ds in rd.gen.values() for x in ds if x.value is c and x.kind in ("assign", "walrus")), None)
-        if d is None or d.node is None:
-            raise AnalysisError(f"LanguageAccept.best_match: `{norm(c)}` is not bound to a local name (stage slot)")
-        node = d.node
-        stage_defs.append((c, d))
-        if isinstance(recv, ast.Call) and dotted(recv.func) == "super" and not recv.args:
-            _o, w = repo.lookup(la, "best_match", after=la.fq)
-            ctx.ob("R17.2", f"stage `{norm(c)}` negotiates through Accept.best_match", isinstance(w, FuncInfo) and w.fq == bm.fq, f"super().best_match resolves to {w.fq if isinstance(w, FuncInfo) else w}", fi, c, f"stage {norm(c)} target")
+    DEFAULT = _Sent("default")
+    fam_fq = {c.fq for c in fam}
+
+    def run(offers: list[str], plan: list[t.Any]) -> tuple[t.Any, list[tuple[t.Any, t.Any, ast.Call]]]:
+        log: list[tuple[t.Any, t.Any, ast.Call]] = []
+        memo: dict[int, t.Any] = {}
+
+        def hook(call: ast.Call, ev: Ev, env: dict, fe_: FuncEval):
+            f = call.func
+            if isinstance(f, ast.Attribute) and f.attr == "best_match":
+                if id(call) in memo:
+                    return memo[id(call)]
+                recv: t.Any
+                if isinstance(f.value, ast.Call) and dotted(f.value.func) == "super" and not f.value.args:
+                    recv = "own"
+                else:
+                    recv = ev.val(f.value, env)
+                    if not isinstance(recv, _AcceptObj):
+                        return UNK
+                args = [ev.val(a, env) for a in call.args]
+                kws = {k.arg: ev.val(k.value, env) for k in call.keywords}
+                if None in kws or len(args) > 2 or set(kws) - {"matches", "default"}:
+                    return UNK
+                cand = args[0] if args else kws.get("matches", UNK)
+                dflt = args[1] if len(args) == 2 else kws.get("default", None)
+                i = len(log)
+                log.append((recv, cand, call))
+                r = plan[i] if i < len(plan) else None
+                memo[id(call)] = dflt if r is None else r
+                return memo[id(call)]
+            d = dotted(f)
+            if d and not call.keywords and len(call.args) <= 1:
+                fq = repo.resolve(fi.module, d)
+                k = repo.try_cls(fq) if fq and fq.startswith("werkzeug") else None
+                if k is not None and k.fq in fam_fq:
+                    items = ev.val(call.args[0], env) if call.args else []
+                    return UNK if items is UNK else _AcceptObj(k, items)
+            return NotImplemented
+
+        fe_ = FuncEval(repo, folder, fi, params={"self": list(_LANG_SELF), offers_p: list(offers), default_p: DEFAULT}, call_hook=hook)
+        res = fe_.concrete()
+        if res is None or res[0] != "return" or res[1] is UNK:
+            what = "raises" if res is not None and res[0] == "raise" else "cannot be followed statement by statement"
+            raise AnalysisError(f"LanguageAccept.best_match: {what} for offers {offers} with stage results {plan} (fallback protocol)")
+        return res[1], log
+
+    def distinct(xs: t.Any) -> list[t.Any] | None:
+        try:
+            return list(dict.fromkeys(xs))
+        except TypeError:
+            return None
+
+    _o, sup = repo.lookup(la, "best_match", after=la.fq)
+    ctx.ob("R17.2", "negotiations on super() go through Accept.best_match", isinstance(sup, FuncInfo) and sup.fq == bm.fq, f"super().best_match resolves to {sup.fq if isinstance(sup, FuncInfo) else sup}", fi, fi.node, "stage super target")
+
+    want_pairs = [(_primary(tag), q) for tag, q in _LANG_SELF]
+    bad: dict[str, str] = {}
+    n_stage = 0
+    for offers in _LANG_OFFERS:
+        prim = [_primary(o) for o in offers]
+        got, log = run(offers, [])
+        n_stage = max(n_stage, len(log))
+        shown = [(r if isinstance(r, str) else repr(r), c) for r, c, _ in log]
+        if len(log) != 3:
+            bad.setdefault("count", f"offers {offers}: {len(log)} negotiation(s) when no stage finds anything: {shown}")
             continue
-        if not isinstance(recv, ast.Name):
-            raise AnalysisError(f"LanguageAccept.best_match: receiver of `{norm(c)}` not understood")
-        rdefs = rd.reaching(node, recv.id)
-        if len(rdefs) != 1:
-            raise AnalysisError(f"LanguageAccept.best_match: `{recv.id}` has {len(rdefs)} definitions at `{norm(c)}`")
-        rdef = next(iter(rdefs))
-        ctor = rdef.value
-        klass = None
-        if isinstance(ctor, ast.Call) and dotted(ctor.func):
-            fq = repo.resolve(fi.module, dotted(ctor.func) or "")
-            klass = repo.try_cls(fq) if fq and fq.startswith("werkzeug") else None
-        okc = klass is not None and any(k.fq == accept.fq for k in repo.mro(klass))
-        tgt = repo.lookup(klass, "best_match")[1] if okc and klass is not None else None
-        ctx.ob("R17.2", f"stage `{norm(c)}` negotiates through Accept.best_match", okc and isinstance(tgt, FuncInfo) and tgt.fq == bm.fq,
-               f"`{recv.id}` is built by `{norm(ctor.func) if isinstance(ctor, ast.Call) else '?'}` -> best_match is {tgt.fq if isinstance(tgt, FuncInfo) else tgt}", fi, c, f"stage {norm(c)} target")
-        # the fallback ranges keep the client's q
-        keeps = False
-        fact = "constructor argument not understood"
-        if isinstance(ctor, ast.Call) and len(ctor.args) == 1 and isinstance(ctor.args[0], (ast.ListComp, ast.GeneratorExp)) and len(ctor.args[0].generators) == 1:
-            comp = ctor.args[0]
-            g = comp.generators[0]
-            elt = comp.elt
-            if astq.is_name(g.iter, "self") and not g.ifs and isinstance(elt, ast.Tuple) and len(elt.elts) == 2:
-                qe = elt.elts[1]
-                if isinstance(g.target, ast.Name):
-                    keeps = isinstance(qe, ast.Subscript) and astq.is_name(qe.value, g.target.id) and _num_const(qe.slice) == 1
-                elif isinstance(g.target, ast.Tuple) and len(g.target.elts) == 2 and isinstance(g.target.elts[1], ast.Name):
-                    keeps = astq.is_name(qe, g.target.elts[1].id)
-                fact = f"ranges are `{norm(elt)}` for `{norm(g.target)}` in self"
-        ctx.ob("R17.2", f"fallback list of `{norm(c)}` keeps each client range's q", keeps, fact, fi, ctor if ctor is not None else c, f"stage {norm(c)} keeps q")
+        (r1, c1, _a), (r2, c2, _b), (r3, c3, _c) = log
+        if not (r1 == "own" and c1 == offers):
+            bad.setdefault("s1", f"offers {offers}: first negotiation is {shown[0]}")
+        if not (isinstance(r2, _AcceptObj) and c2 == offers):
+            bad.setdefault("s2", f"offers {offers}: second negotiation is {shown[1]}")
+        else:
+            tgt = repo.lookup(r2.klass, "best_match")[1]
+            if not (isinstance(tgt, FuncInfo) and tgt.fq == bm.fq):
+                bad.setdefault("s2", f"the fallback object is a {r2.klass.name}, whose best_match is {tgt.fq if isinstance(tgt, FuncInfo) else tgt}")
+            items = [tuple(x) if isinstance(x, (list, tuple)) else x for x in r2.items] if isinstance(r2.items, (list, tuple)) else None
+            if items is None or [x[0] for x in items if isinstance(x, tuple) and len(x) == 2] != [p for p, _ in want_pairs] or len(items) != len(want_pairs):
+                bad.setdefault("s2", f"client ranges {_LANG_SELF}: the fallback ranges are {r2.items}, expected the primary tags {[p for p, _ in want_pairs]}")
+            elif [x[1] for x in items] != [q for _, q in want_pairs]:
+                bad.setdefault("q", f"client ranges {_LANG_SELF}: the fallback ranges are {r2.items} - the client's q is not kept")
+        if not (r3 == "own" and distinct(c3) == distinct(prim)):
+            bad.setdefault("s3", f"offers {offers}: third negotiation is {shown[2]}, expected the offers' primary tags {prim}")
+        ctx.ob("R17.2", f"LanguageAccept.best_match returns the default when no stage finds anything among {offers}", got is DEFAULT, f"returns {got!r}", fi, fi.node, f"nothing negotiated among {','.join(offers)}")
+    ctx.floor("R17.2", "negotiation stages of LanguageAccept.best_match", n_stage, 1)
+    ctx.ob("R17.2", "LanguageAccept.best_match negotiates in exactly three stages", "count" not in bad, bad.get("count", "three best_match negotiations when none finds anything"), fi, fi.node, "stage count")
+    if "count" not in bad:
+        ctx.ob("R17.2", "stage 1 negotiates the client's ranges on the caller's offers", "s1" not in bad, bad.get("s1", "super().best_match(<offers>)"), fi, fi.node, "stage 1 exact")
+        ctx.ob("R17.2", "stage 2 negotiates the primary tags of the client's ranges on the caller's offers, through Accept.best_match", "s2" not in bad, bad.get("s2", f"an Accept of {want_pairs} negotiates the offers"), fi, fi.node, "stage 2 client primary tags")
+        ctx.ob("R17.2", "the stage 2 ranges keep each client range's q", "q" not in bad and "s2" not in bad, bad.get("q", bad.get("s2", f"{want_pairs}")), fi, fi.node, "stage 2 keeps q")
+        ctx.ob("R17.2", "stage 3 negotiates the client's ranges on the primary tags of the offers, in offer order", "s3" not in bad, bad.get("s3", "super().best_match(<primary tags of the offers>)"), fi, fi.node, "stage 3 offer primary tags")
 
-    # staging: a later stage runs only when the earlier one found nothing
-    def none_edge(tn: Node, lb: str, d) -> bool:
-        cp = astq.cmp_parts(tn.ast) if tn.ast is not None else None
-        if not cp or not astq.is_none(cp[2]):
-            return False
-        if isinstance(cp[0], ast.NamedExpr):
-            if cp[0].value is not d.value:
-                return False
-        elif not isinstance(cp[0], ast.Name) or set(rd.reaching(tn, cp[0].id)) != {d}:
-            return False
-        return (isinstance(cp[1], (ast.Is, ast.Eq)) and lb == "T") or (isinstance(cp[1], (ast.IsNot, ast.NotEq)) and lb == "F")
-
-    for (c0, d0), (c1, d1) in zip(stage_defs, stage_defs[1:]):
-        g = cfg.guards(d1.node)
-        ok = any(none_edge(tn, lb, d0) for tn, lb in g)
-        ctx.ob("R17.2", f"stage `{norm(c1)}` runs only when `{norm(c0)}` found nothing", ok, "dominated by the `is None` edge of the previous result" if ok else "not dominated by a None test of the previous stage's result: a fallback could override an exact match", fi, c1, f"staging {norm(c1)}")
-
-    # every returned value is the default or an offer that came out of a stage
-    stage_set = {d for _, d in stage_defs}
-
-    def stage_offers(c: ast.Call, d):
-        """how the stage's candidate list relates to the caller's offers: ("original",) or ("derived", elt, target name)."""
-        a0 = c.args[0] if c.args else None
-        if not isinstance(a0, ast.Name):
-            return ("unknown",)
-        ds = rd.reaching(d.node, a0.id)
-        if a0.id == offers_p and {x.kind for x in ds} == {"param"}:
-            return ("original",)
-        if len(ds) == 1:
-            v_ = next(iter(ds)).value
-            if isinstance(v_, (ast.ListComp, ast.GeneratorExp)) and len(v_.generators) == 1 and astq.is_name(v_.generators[0].iter, offers_p) and isinstance(v_.generators[0].target, ast.Name) and not v_.generators[0].ifs:
-                return ("derived", v_.elt, v_.generators[0].target.id)
-        return ("unknown",)
-
-    offers_of = {d: stage_offers(c, d) for c, d in stage_defs}
-
-    def stages_of(name: str, node: Node) -> set:
-        ds = set(rd.reaching(node, name))
-        return ds if ds and ds <= stage_set else set()
-
-    SAMPLE_OFFERS = (["enm-GB", "en-US", "de"], ["en-US", "enm-GB", "de"], ["de-AT", "deu", "en"])
-    n = 0
-    for r in sorted(astq.returns_of(fi.node), key=lambda r: (r.lineno, r.col_offset)):
-        node = cfg.node_of(r)
-        assert node is not None
-        v = r.value
-        n += 1
-        if astq.is_name(v, default_p) and set(x.kind for x in rd.reaching(node, default_p)) == {"param"}:
-            ctx.ob("R17.2", "LanguageAccept.best_match returns the default", True, "`return default`", fi, r, f"return {norm(r)}")
-            continue
-        ok = False
-        fact = f"`{norm(r)}`"
-        if isinstance(v, ast.Name):
-            st = stages_of(v.id, node)
-            kinds = {offers_of[d][0] for d in st}
-            ok = bool(st) and kinds == {"original"}
-            fact += " is the result of a stage run on the caller's offers" if ok else (" is the result of a stage run on a derived list: not one of the offers" if st else " is not the result of a best_match stage")
-        elif isinstance(v, ast.Call) and astq.is_name(v.func, "next") and v.args and isinstance(v.args[0], ast.GeneratorExp):
-            ge = v.args[0]
-            g0 = ge.generators[0]
-            used = sorted({x.id for c_ in g0.ifs for x in ast.walk(c_) if isinstance(x, ast.Name)} - ({g0.target.id} if isinstance(g0.target, ast.Name) else set()))
-            tied = [u for u in used if stages_of(u, node)]
-            shape = len(ge.generators) == 1 and astq.is_name(g0.iter, offers_p) and isinstance(g0.target, ast.Name) and astq.is_name(ge.elt, g0.target.id) and len(tied) == 1
-            ok = shape
-            fact += " picks an original offer by a stage result" if shape else " is not tied to a stage result"
-            if shape:
-                u = tied[0]
-                derived = [offers_of[d] for d in stages_of(u, node)]
-                if len(derived) != 1 or derived[0][0] != "derived":
-                    raise AnalysisError(f"LanguageAccept.best_match: `{norm(r)}` maps back a result of a stage whose candidate list is not understood")
-                _k, elt, tname = derived[0]
-                ev = fe.ev_at(node)
-                for offers in SAMPLE_OFFERS:
-                    tags = []
-                    for o in offers:
-                        tg_ = ev.val(elt, {tname: o})
-                        if tg_ is UNK:
-                            raise AnalysisError(f"LanguageAccept.best_match: cannot evaluate `{norm(elt)}` for offer {o!r}")
-                        tags.append(tg_)
-                    for res in dict.fromkeys(tags):
-                        chosen = ev.val(v, {offers_p: offers, u: res})
-                        if chosen is UNK:
-                            raise AnalysisError(f"LanguageAccept.best_match: cannot evaluate `{norm(v)}` for offers {offers} and stage result {res!r}")
-                        back = ev.val(elt, {tname: chosen}) if isinstance(chosen, str) else UNK
-                        good = chosen in offers and back == res
-                        ctx.ob("R17.2", f"LanguageAccept.best_match return #{n}: the offer returned for the negotiated tag {res!r} among {offers} carries that tag", good,
-                               f"`{norm(v)}` yields {chosen!r}, whose candidate tag `{norm(elt)}` is {back!r}" + ("" if good else f" - not {res!r}: an offer that no client range matched is returned"), fi, r, f"primary-tag result {res} mapped back among {','.join(offers)}")
-        ctx.ob("R17.2", f"LanguageAccept.best_match return #{n} is a negotiated offer", ok, fact, fi, r, f"return #{n} {norm(r)}")
-    ctx.floor("R17.2", "returns of LanguageAccept.best_match", n, 3)
+    for offers in _LANG_OFFERS:
+        o = offers[1]
+        got, log = run(offers, [o])
+        ctx.ob("R17.2", f"an exact match ({o!r} among {offers}) is returned, later stages cannot override it", got == o, f"stage 1 selects {o!r}: returns {got!r}", fi, fi.node, f"stage 1 result {o} among {','.join(offers)}")
+        got, log = run(offers, [None, o])
+        ctx.ob("R17.2", f"a client-primary-tag match ({o!r} among {offers}) is returned once no exact match exists", got == o, f"stage 1 finds nothing, stage 2 selects {o!r}: returns {got!r}", fi, fi.node, f"stage 2 result {o} among {','.join(offers)}")
+        prim = [_primary(x) for x in offers]
+        for res in dict.fromkeys(prim):
+            want = offers[prim.index(res)]
+            got, log = run(offers, [None, None, res])
+            ctx.ob("R17.2", f"the offer returned for the negotiated primary tag {res!r} among {offers} is the first offer carrying that tag", got == want,
+                   f"stages 1 and 2 find nothing, stage 3 selects {res!r}: returns {got!r}" + ("" if got == want else f", expected {want!r}" + (": an offer that no client range matched" if isinstance(got, str) and _primary(got) != res else "")), fi, fi.node, f"primary-tag result {res} mapped back among {','.join(offers)}")
 
 
 # =====================================================================
@@ -738,7 +961,7 @@ def _first_match(ctx: Ctx, fi: FuncInfo, want: str, miss: t.Any, folder: Folder 
     cfg = cfg_of(fi)
     offer_p = fi.params[1] if len(fi.params) > 1 else None
     loops = [n for n in walk_no_nested(fi.node) if isinstance(n, ast.For)]
-    if not loops and want == "quality" and offer_p is not None and folder is not None:
+    if not loops and want == "quality" and offer_p is not None and folder is not None and any(self_call(c, "_best_single_match") for c in astq.calls(fi.node, nested=False)):
         # no scan of its own: built on _best_single_match (analysed above)
         OFFER, RANGE = _Sent("offer"), _Sent("range")
         for found, exp in ((True, 0.37), (False, miss)):
@@ -753,51 +976,145 @@ def _first_match(ctx: Ctx, fi: FuncInfo, want: str, miss: t.Any, folder: Folder 
             ctx.ob("R17.3", f"{fi.qualname} yields {'the quality of the most specific matching range' if found else repr(miss) + ' when no range matches'}", ok,
                    f"through _best_single_match: returns {vals_}{' or raises' if raises else ''}", fi, fi.node, f"{fi.qualname} via single match {'hit' if found else 'miss'}")
         return
-    if len(loops) != 1 or offer_p is None:
-        raise AnalysisError(f"{fi.qualname}: expected one loop over the list and an offer parameter")
+    if offer_p is None:
+        raise AnalysisError(f"{fi.qualname}: expected an offer parameter")
+    fe = FuncEval(ctx.repo, folder, fi) if folder is not None else None
+    rd = fe.rd if fe is not None else None
+
+    def source(e: ast.AST | None, node: Node | None) -> ast.AST | None:
+        """the expression a returned local stands for (plain copies `x = <expr>` ... `return x` are followed)."""
+        for _ in range(4):
+            if not (isinstance(e, ast.Name) and rd is not None and node is not None):
+                break
+            ds = rd.reaching(node, e.id)
+            if len(ds) != 1:
+                break
+            d = next(iter(ds))
+            if d.kind not in ("assign", "walrus") or d.index is not None or d.value is None or d.node is None:
+                break
+            e, node = d.value, d.node
+        return e
+
+    def make_comp(tg: ast.AST) -> t.Callable[[ast.AST | None], t.Any]:
+        def comp(e: ast.AST | None) -> t.Any:
+            if e is None:
+                return None
+            if isinstance(tg, ast.Tuple) and len(tg.elts) == 2 and all(isinstance(x, ast.Name) for x in tg.elts):
+                if astq.is_name(e, tg.elts[0].id):  # type: ignore[attr-defined]
+                    return 0
+                if astq.is_name(e, tg.elts[1].id):  # type: ignore[attr-defined]
+                    return 1
+                if isinstance(e, ast.Tuple) and len(e.elts) == 2 and comp(e.elts[0]) == 0 and comp(e.elts[1]) == 1:
+                    return "pair"
+            elif isinstance(tg, ast.Name):
+                if astq.is_name(e, tg.id):
+                    return "pair"
+                if isinstance(e, ast.Subscript) and astq.is_name(e.value, tg.id) and _num_const(e.slice) in (0, 1):
+                    return _num_const(e.slice)
+                if isinstance(e, ast.Tuple) and len(e.elts) == 2 and comp(e.elts[0]) == 0 and comp(e.elts[1]) == 1:
+                    return "pair"
+            return None
+
+        return comp
+
+    exp = "pair" if want == "pair" else 1
+    what = "(range, quality) pair" if want == "pair" else "quality"
+
+    def is_miss(e: ast.AST | None) -> bool:
+        if e is None:
+            return miss is None
+        if not isinstance(e, ast.Constant):
+            return False
+        v = e.value
+        return v == miss and isinstance(v, bool) == isinstance(miss, bool) and (v is None) == (miss is None)
+
+    def match_call(a: ast.AST | None) -> ast.Call | None:
+        return a if isinstance(a, ast.Call) and self_call(a, "_value_matches") and len(a.args) == 2 and not a.keywords else None
+
+    def conjuncts(e: ast.AST) -> list[ast.AST]:
+        if isinstance(e, ast.BoolOp) and isinstance(e.op, ast.And):
+            return [y for x in e.values for y in conjuncts(x)]
+        return [e]
+
+    rets = astq.returns_of(fi.node)
+    # ---- shape: next(<generator over the list>, <miss>) ---------------------------------------------------------
+    searches = []
+    for r in rets:
+        v = source(r.value, cfg.node_of(r))
+        if isinstance(v, ast.Call) and astq.is_name(v.func, "next") and v.args and isinstance(v.args[0], ast.GeneratorExp) and not v.keywords:
+            searches.append((r, v))
+    if searches and not loops:
+        for r, v in searches:
+            ge = v.args[0]
+            assert isinstance(ge, ast.GeneratorExp)
+            if len(ge.generators) != 1 or ge.generators[0].is_async:
+                raise AnalysisError(f"{fi.qualname}: `{norm(v)}` is not a search over one iteration (first-match slot)")
+            g = ge.generators[0]
+            comp = make_comp(g.target)
+            ctx.ob("R17.3", f"{fi.qualname} scans the ranges in list order", _in_order(g.iter, "self"), f"generator iterates `{norm(g.iter)}`; next() takes its first element", fi, r, f"{fi.qualname} iteration order")
+            guard = None
+            for c_ in g.ifs:
+                for a in conjuncts(c_):
+                    guard = match_call(a) or guard
+            ok_g = guard is not None and astq.is_name(guard.args[0], offer_p) and comp(guard.args[1]) == 0
+            ctx.ob("R17.3", f"{fi.qualname} returns at the first range that matches the offer", ok_g,
+                   f"`{norm(v)}` filtered by `{norm(guard) if guard is not None else None}` (expected _value_matches(<offer `{offer_p}`>, <range>))", fi, r, f"{fi.qualname} first match guard")
+            ctx.ob("R17.3", f"{fi.qualname} returns that range's {what}", comp(ge.elt) == exp, f"element `{norm(ge.elt)}`", fi, r, f"{fi.qualname} returned component")
+        others = [r for r in rets if not any(r is r2 for r2, _ in searches)]
+        dflt = [v.args[1] if len(v.args) == 2 else None for _, v in searches]
+        ok_miss = all(d is not None and is_miss(d) for d in dflt) and all(is_miss(r.value) for r in others)
+        ctx.ob("R17.3", f"{fi.qualname} yields {miss!r} when no range matches", ok_miss,
+               f"default of next(): {[norm(d) if d is not None else 'none (StopIteration)' for d in dflt]}" + (f"; other returns {[norm(r) for r in others]}" if others else ""), fi, searches[0][0], f"{fi.qualname} miss value")
+        return
+    if len(loops) != 1:
+        raise AnalysisError(f"{fi.qualname}: expected one loop over the list, or next() over one generator (first-match slot)")
     loop = loops[0]
+    head = cfg.node_of(loop)
+    assert head is not None
     ctx.ob("R17.3", f"{fi.qualname} scans the ranges in list order", _in_order(loop.iter, "self"), f"iterates `{norm(loop.iter)}`", fi, loop, f"{fi.qualname} iteration order")
-    tg = loop.target
+    comp = make_comp(loop.target)
 
-    def comp(e: ast.AST) -> t.Any:
-        if isinstance(tg, ast.Tuple) and len(tg.elts) == 2 and all(isinstance(x, ast.Name) for x in tg.elts):
-            if astq.is_name(e, tg.elts[0].id):  # type: ignore[attr-defined]
-                return 0
-            if astq.is_name(e, tg.elts[1].id):  # type: ignore[attr-defined]
-                return 1
-            if isinstance(e, ast.Tuple) and len(e.elts) == 2 and comp(e.elts[0]) == 0 and comp(e.elts[1]) == 1:
-                return "pair"
-        elif isinstance(tg, ast.Name):
-            if astq.is_name(e, tg.id):
-                return "pair"
-            if isinstance(e, ast.Subscript) and astq.is_name(e.value, tg.id) and _num_const(e.slice) in (0, 1):
-                return _num_const(e.slice)
-            if isinstance(e, ast.Tuple) and len(e.elts) == 2 and comp(e.elts[0]) == 0 and comp(e.elts[1]) == 1:
-                return "pair"
-        return None
-
-    rets_in = [r for r in astq.returns_of(fi.node) if _inside(r, loop)]
-    if not rets_in:
-        raise AnalysisError(f"{fi.qualname}: no return inside the loop (first-match slot)")
-    for r in rets_in:
+    # hit sites: where the answer is fixed - a return inside the loop, or (search loop with break) an assignment inside
+    # the loop to the name that is returned after it
+    hits: list[tuple[ast.AST, ast.AST | None]] = [(r, r.value) for r in rets if _inside(r, loop)]
+    rets_out = [r for r in rets if not _inside(r, loop)]
+    miss_exprs: list[tuple[ast.AST, ast.AST | None]] = []
+    for r in rets_out:
         node = cfg.node_of(r)
+        inner = []
+        if isinstance(r.value, ast.Name) and rd is not None and node is not None:
+            ds = rd.reaching(node, r.value.id)
+            inner = [d for d in ds if _inside(d.stmt, loop)]
+            if inner:
+                for d in ds:
+                    if d in inner:
+                        if d.kind not in ("assign", "walrus") or d.index is not None or d.node is None:
+                            raise AnalysisError(f"{fi.qualname}: `{norm(d.stmt) if d.stmt is not None else d.name}` not understood (first-match slot)")
+                        hits.append((d.stmt, d.value))  # type: ignore[arg-type]
+                    elif d.kind == "assign" and d.index is None:
+                        miss_exprs.append((d.stmt, d.value))  # type: ignore[arg-type]
+                    else:
+                        miss_exprs.append((r, r.value))
+        if not inner:
+            miss_exprs.append((r, r.value))
+    if not hits:
+        raise AnalysisError(f"{fi.qualname}: no return / result assignment inside the loop (first-match slot)")
+    for st, val in hits:
+        node = cfg.node_of(st)
         assert node is not None
         guard = None
         for tn, lb in cfg.guards(node):
-            a = tn.ast
-            if lb == "T" and isinstance(a, ast.Call) and self_call(a, "_value_matches") and len(a.args) == 2 and not a.keywords:
-                guard = a
-        ok_g = guard is not None and astq.is_name(guard.args[0], offer_p) and comp(guard.args[1]) == 0
+            if lb == "T" and match_call(tn.ast) is not None:
+                guard = match_call(tn.ast)
+        # the scan stops here: no way back to the loop head
+        stops = isinstance(st, ast.Return) or head.id not in cfg.reach(node)
+        ok_g = guard is not None and astq.is_name(guard.args[0], offer_p) and comp(guard.args[1]) == 0 and stops
         ctx.ob("R17.3", f"{fi.qualname} returns at the first range that matches the offer", ok_g,
-               f"`{norm(r)}` guarded by `{norm(guard) if guard is not None else None}` (expected _value_matches(<offer `{offer_p}`>, <range>))", fi, r, f"{fi.qualname} first match guard")
-        got = comp(r.value) if r.value is not None else None
-        exp = "pair" if want == "pair" else 1
-        ctx.ob("R17.3", f"{fi.qualname} returns that range's {'(range, quality) pair' if want == 'pair' else 'quality'}", got == exp, f"`{norm(r)}`", fi, r, f"{fi.qualname} returned component")
-    rets_out = [r for r in astq.returns_of(fi.node) if not _inside(r, loop)]
-    vals = [(r.value.value if isinstance(r.value, ast.Constant) else UNK) if r.value is not None else None for r in rets_out]
+               f"`{norm(st)}` guarded by `{norm(guard) if guard is not None else None}` (expected _value_matches(<offer `{offer_p}`>, <range>))" + ("" if stops else "; the scan goes on after a hit (last match wins)"), fi, st, f"{fi.qualname} first match guard")
+        ctx.ob("R17.3", f"{fi.qualname} returns that range's {what}", comp(val) == exp, f"`{norm(st)}`", fi, st, f"{fi.qualname} returned component")
     falls = not rets_out
-    ok_miss = (falls and miss is None) or (bool(rets_out) and all(v is not UNK and v == miss and isinstance(v, bool) == isinstance(miss, bool) and (v is None) == (miss is None) for v in vals))
-    ctx.ob("R17.3", f"{fi.qualname} yields {miss!r} when no range matches", ok_miss, f"after the loop: {[norm(r) for r in rets_out] or 'falls off the end'}", fi, rets_out[0] if rets_out else fi.node, f"{fi.qualname} miss value")
+    ok_miss = (falls and miss is None) or (bool(miss_exprs) and all(is_miss(v) for _, v in miss_exprs))
+    ctx.ob("R17.3", f"{fi.qualname} yields {miss!r} when no range matches", ok_miss, f"after the loop: {[norm(s_) for s_, _ in miss_exprs] or 'falls off the end'}", fi, miss_exprs[0][0] if miss_exprs else fi.node, f"{fi.qualname} miss value")
 
 
 def _spec_samples(kind: str) -> list[str]:
@@ -806,6 +1123,9 @@ def _spec_samples(kind: str) -> list[str]:
 
 def _eval_method(ctx: Ctx, folder: Folder, fi: FuncInfo, args: dict[str, t.Any]) -> tuple[list[t.Any], bool, FuncEval]:
     fe = FuncEval(ctx.repo, folder, fi, params=args)
+    res = fe.concrete()  # the arguments are constants: one path, followed statement by statement
+    if res is not None and (res[0] == "raise" or res[1] is not UNK):
+        return ([res[1]] if res[0] == "return" else []), res[0] == "raise", fe
     rets, raises = fe.outcomes()
     return [v for _, v in rets], raises, fe
 
@@ -860,10 +1180,32 @@ def _r173(ctx: Ctx, folder: Folder, accept: ClassInfo, fam: list[ClassInfo]) -> 
     cfg, rd = fe.cfg, fe.rd
     values_p = init.params[1] if len(init.params) > 1 else None
     sorts = [c for c in astq.calls(init.node) if (isinstance(c.func, ast.Name) and c.func.id == "sorted") or (isinstance(c.func, ast.Attribute) and c.func.attr == "sort")]
-    if len(sorts) != 1 or not isinstance(sorts[0].func, ast.Name) or values_p is None:
-        raise AnalysisError(f"Accept.__init__: expected exactly one sorted(...) call, found {[norm(c.func) for c in sorts]} (sort slot)")
+    if len(sorts) != 1 or values_p is None:
+        raise AnalysisError(f"Accept.__init__: expected exactly one sorted(...) / <list>.sort(...) call, found {[norm(c.func) for c in sorts]} (sort slot)")
     sc = sorts[0]
-    ctx.ob("R17.3", "the sort covers the given values", bool(sc.args) and astq.is_name(sc.args[0], values_p), f"`sorted({norm(sc.args[0]) if sc.args else ''}, ...)`", init, sc, "sort input")
+    sort_node = cfg.node_of(sc)
+    assert sort_node is not None
+    in_place: t.Any = None  # (name of the list sorted in place, its definition)
+    if isinstance(sc.func, ast.Name):
+        ctx.ob("R17.3", "the sort covers the given values", bool(sc.args) and _in_order(sc.args[0], values_p), f"`sorted({norm(sc.args[0]) if sc.args else ''}, ...)`", init, sc, "sort input")
+    else:
+        # <name>.sort(...): list.sort is the same stable sort; the name must be a fresh list of the values that nothing else reorders
+        recv = sc.func.value  # type: ignore[attr-defined]
+        ds = rd.reaching(sort_node, recv.id) if isinstance(recv, ast.Name) else frozenset()
+        dl = next(iter(ds)) if len(ds) == 1 else None
+        if dl is None or not _plain(dl) or sc.args:
+            raise AnalysisError(f"Accept.__init__: receiver of `{norm(sc)}` is not a local list with one definition (sort slot)")
+        in_place = (recv.id, dl)  # type: ignore[union-attr]
+        v = dl.value
+        fresh = (isinstance(v, ast.Call) and astq.is_name(v.func, "list") and len(v.args) == 1 and not v.keywords and _in_order(v.args[0], values_p)) or (
+            isinstance(v, ast.List) and len(v.elts) == 1 and isinstance(v.elts[0], ast.Starred) and _in_order(v.elts[0].value, values_p)) or (
+            isinstance(v, (ast.ListComp,)) and len(v.generators) == 1 and not v.generators[0].ifs and _in_order(v.generators[0].iter, values_p) and isinstance(v.generators[0].target, ast.Name) and astq.is_name(v.elt, v.generators[0].target.id))
+        ctx.ob("R17.3", "the sort covers the given values", bool(fresh), f"`{norm(dl.stmt)}` then `{norm(sc)}`", init, sc, "sort input")
+        touched = [c for c in astq.calls(init.node) if c is not sc and isinstance(c.func, ast.Attribute) and astq.is_name(c.func.value, recv.id) and c.func.attr in ("sort", "reverse", "insert", "append", "extend", "pop", "remove", "clear", "__setitem__", "__delitem__")]  # type: ignore[union-attr]
+        touched += [x for x in ast.walk(init.node) if isinstance(x, (ast.Subscript,)) and isinstance(x.ctx, (ast.Store, ast.Del)) and astq.is_name(x.value, recv.id)]  # type: ignore[union-attr]
+        touched += [x for x in ast.walk(init.node) if isinstance(x, ast.AugAssign) and astq.is_name(x.target, recv.id)]  # type: ignore[union-attr]
+        if touched:
+            raise AnalysisError(f"Accept.__init__: `{recv.id}` is also modified by `{norm(touched[0])}` (sort slot)")  # type: ignore[union-attr]
     key = astq.kwarg(sc, "key")
     rev_e = astq.kwarg(sc, "reverse")
     rev = Ev(lambda nm: UNK).val(rev_e) if rev_e is not None else False
@@ -882,13 +1224,22 @@ def _r173(ctx: Ctx, folder: Folder, accept: ClassInfo, fam: list[ClassInfo]) -> 
             return item
         if isinstance(key, ast.Lambda) and len(key.args.args) == 1:
             return Ev(lambda nm: UNK, hook).val(key.body, {key.args.args[0].arg: item})
+        sub = None
         if isinstance(key, ast.Attribute) and astq.is_name(key.value, "self"):
             _o, w = repo.lookup(accept, key.attr)
             if isinstance(w, FuncInfo) and len(w.params) == 2:
                 sub = FuncEval(repo, folder, w, params={w.params[1]: item}, call_hook=lambda c, e, env, f: hook(c, e, env))
-                rv, raises = sub.outcomes()
-                if not raises and len(rv) == 1:
-                    return rv[0][1]
+        elif isinstance(key, ast.Name):
+            fn = nested_funcs(init.node).get(key.id)
+            if fn is not None and len(fn.args.args) == 1 and not rd.reaching(sort_node, key.id) - {d for d in rd.reaching(sort_node, key.id) if d.kind == "def"}:
+                sub = FuncEval(repo, folder, init, fn=fn, params={fn.args.args[0].arg: item}, call_hook=lambda c, e, env, f: hook(c, e, env))
+        if sub is not None:
+            res = sub.concrete()
+            if res is not None and res[0] == "return":
+                return res[1]
+            rv, raises = sub.outcomes()
+            if not raises and len(rv) == 1:
+                return rv[0][1]
         return UNK
 
     def before(a: tuple[str, float], b: tuple[str, float]) -> t.Any:
@@ -922,9 +1273,11 @@ def _r173(ctx: Ctx, folder: Folder, accept: ClassInfo, fam: list[ClassInfo]) -> 
         arg = c.args[0]
         direct = arg is sc
         via = False
-        if isinstance(arg, ast.Name):
+        if isinstance(arg, ast.Name) and in_place is None:
             ds = rd.reaching(node, arg.id)
             via = len(ds) == 1 and next(iter(ds)).value is sc and next(iter(ds)).kind == "assign"
+        elif isinstance(arg, ast.Name) and arg.id == in_place[0]:
+            via = set(rd.reaching(node, arg.id)) == {in_place[1]} and cfg.node_dominates(sort_node, node)
         if direct or via:
             stored_sorted += 1
             ctx.ob("R17.3", "the stable sorted() result is stored as is", True, f"`{norm(c)}` receives the sorted list", init, c, "sorted list stored")
@@ -932,6 +1285,9 @@ def _r173(ctx: Ctx, folder: Folder, accept: ClassInfo, fam: list[ClassInfo]) -> 
         # otherwise: does a definition derived from the sort reach (slice / reversed copy)?
         derived = isinstance(arg, ast.Name) and any(d.value is not None and any(x is sc for x in ast.walk(d.value)) for d in rd.reaching(node, arg.id))
         derived = derived or any(x is sc for x in ast.walk(arg))
+        if in_place is not None:
+            uses = lambda e: any(astq.is_name(x, in_place[0]) for x in ast.walk(e))  # noqa: E731
+            derived = uses(arg) or (isinstance(arg, ast.Name) and any(d.value is not None and uses(d.value) for d in rd.reaching(node, arg.id)))
         if derived:
             stored_sorted += 1
             ctx.ob("R17.3", "the stable sorted() result is stored as is", False, f"`{norm(c)}` receives a value computed from the sorted list (re-ordered or sliced): ties no longer keep client order", init, c, "sorted list stored")
@@ -975,6 +1331,7 @@ def _r174(ctx: Ctx, folder: Folder, accept: ClassInfo, fam: list[ClassInfo]) -> 
     ctx.floor("R17.4", "_value_matches implementations", len(impls), 4)
     decided = 0
     agree = 0
+    non_mime = 0
     for _fq, (fi, kind) in sorted(impls.items()):
         ctx.saw(fi)
         if len(fi.params) != 3:
@@ -1003,22 +1360,68 @@ def _r174(ctx: Ctx, folder: Folder, accept: ClassInfo, fam: list[ClassInfo]) -> 
             ctx.ob("R17.4", f"{fi.qualname}: range {item!r} {'matches' if expect else 'does not match'} offer {value!r}", ok, f"evaluates to {got}", fi, fi.node, f"{fi.qualname} {item} vs {value}")
         if kind != "mime":
             # both operands of an equality that involves the offer and the range go through the same normaliser
-            for cmpn in [n for n in ast.walk(fi.node) if isinstance(n, ast.Compare) and len(n.ops) == 1 and isinstance(n.ops[0], (ast.Eq, ast.NotEq))]:
-                l, r = cmpn.left, cmpn.comparators[0]
-                ln, rn = astq.names_in(l) & {vp, ip}, astq.names_in(r) & {vp, ip}
-                if len(ln) == 1 and len(rn) == 1 and ln != rn:
-                    agree += 1
-                    same = _rename(l, {vp: "_", ip: "_"}) == _rename(r, {vp: "_", ip: "_"})
-                    ctx.ob("R17.4", f"{fi.qualname}: offer and range are compared under the same normaliser", same, f"`{norm(cmpn)}`", fi, cmpn, f"{fi.qualname} normaliser agreement")
+            non_mime += 1
+            found = _agreements(ctx, folder, fi, vp, ip, 0)
+            if not found:
+                raise AnalysisError(f"{fi.qualname}: no equality comparison between the offer and the range found, here or in a helper it hands both to (normaliser slot)")
+            for where_fi, cmpn, l, r in found:
+                agree += 1
+                same = ast.dump(l) == ast.dump(r)
+                ctx.ob("R17.4", f"{fi.qualname}: offer and range are compared under the same normaliser", same, f"`{norm(cmpn)}`" + (f" in {where_fi.qualname}" if where_fi is not fi else "") + f": offer side `{norm(l)}`, range side `{norm(r)}` (`_` = the value compared)", fi, cmpn, f"{fi.qualname} normaliser agreement")
     ctx.floor("R17.4", "decided match scenarios", decided, 30)
-    ctx.floor("R17.4", "offer/range equality comparisons", agree, 3)
+    ctx.floor("R17.4", "offer/range equality comparisons", agree, max(non_mime, 1))
 
 
-def _rename(e: ast.AST, mp: dict[str, str]) -> str:
-    class R(ast.NodeTransformer):
+def _expanded(fe: FuncEval, e: ast.AST, node: Node | None, mp: dict[str, str], depth: int = 0) -> ast.AST:
+    """copy of e in which every local that has one plain definition is replaced by that definition's value (followed a
+    few levels), and the names in ``mp`` are renamed."""
+    class T(ast.NodeTransformer):
         def visit_Name(self, n: ast.Name) -> ast.AST:
+            if isinstance(n.ctx, ast.Load) and node is not None and depth < 5:
+                ds = fe.rd.reaching(node, n.id)
+                if len(ds) == 1:
+                    d = next(iter(ds))
+                    if _plain(d) and d.value is not None:
+                        return _expanded(fe, d.value, d.node, mp, depth + 1)
             return ast.copy_location(ast.Name(id=mp.get(n.id, n.id), ctx=n.ctx), n)
 
-    import copy
+        def visit_NamedExpr(self, n: ast.NamedExpr) -> ast.AST:
+            return self.visit(n.value)
 
-    return ast.dump(R().visit(copy.deepcopy(e)))
+    # a fresh parse instead of deepcopy (engine ASTs carry parent links); names are looked up by id at ``node``
+    return T().visit(ast.parse(ast.unparse(e), mode="eval").body)
+
+
+def _agreements(ctx: Ctx, folder: Folder, fi: FuncInfo, vp: str, ip: str, depth: int) -> list[tuple[FuncInfo, ast.Compare, ast.AST, ast.AST]]:
+    """equality comparisons in fi with the offer (parameter vp) on one side and the range (ip) on the other, locals
+    expanded: (function, comparison, offer side, range side) with both parameters renamed to `_`.  When fi has none,
+    the helpers (same module, or methods nobody overrides) that receive both parameters are searched the same way."""
+    fe = FuncEval(ctx.repo, folder, fi)
+    out: list[tuple[FuncInfo, ast.Compare, ast.AST, ast.AST]] = []
+    for cmpn in [n for n in walk_no_nested(fi.node) if isinstance(n, ast.Compare) and len(n.ops) == 1 and isinstance(n.ops[0], (ast.Eq, ast.NotEq))]:
+        node = fe.cfg.node_of(cmpn)
+        sides = []
+        for e in (cmpn.left, cmpn.comparators[0]):
+            x = _expanded(fe, e, node, {})
+            sides.append((astq.names_in(x) & {vp, ip}, _expanded(fe, e, node, {vp: "_", ip: "_"})))
+        (ln, l), (rn, r) = sides
+        if len(ln) == 1 and len(rn) == 1 and ln != rn:
+            out.append((fi, cmpn, l, r) if ln == {vp} else (fi, cmpn, r, l))
+    if out or depth >= 1:
+        return out
+    for c in astq.calls(fi.node, nested=False):
+        if c.keywords or not all(isinstance(a, ast.Name) for a in c.args):
+            continue
+        ids = [a.id for a in c.args]  # type: ignore[attr-defined]
+        if vp not in ids or ip not in ids:
+            continue
+        h = _module_helper(fi, fe, fe.cfg.node_of(c), c)
+        names = h.params if h is not None else []
+        if h is None and isinstance(c.func, ast.Attribute) and astq.is_name(c.func.value, "self") and fi.cls is not None:
+            h = sole_method(ctx.repo, fi.cls, c.func.attr)
+            names = h.params[1:] if h is not None and h.params else []
+        if h is None or len(names) != len(ids):
+            continue
+        ctx.saw(h)
+        out += _agreements(ctx, folder, h, names[ids.index(vp)], names[ids.index(ip)], depth + 1)
+    return out
